@@ -20,7 +20,7 @@ MANIFEST = {
     'technique': 'solver-driven bounded exploration of the real Python code (z3 decides every configuration choice; coverage certificate), specification oracle',
 }
 
-BOUNDS = {'quick': [1, 2, 3, 4], 'thorough': [1, 2, 3, 4, 5]}
+BOUNDS = {'quick': [1, 2, 3, 4], 'thorough': [1, 2, 3, 4, 5, 6]}
 HEUR = ['MI-numba-randomized', 'MI-numba-3mr', 'Constant']
 INFO = {
     'engine': 'symx + z3 (inputs concretised by decisions) + real pandas',
